@@ -111,6 +111,8 @@ def poly_compare(spec, real, model_lines):
     if len(st) < 5 or st[0] != "S":
         return "mismatch", f"model output unreadable: {model_lines[:1]}"
     status = st[1]
+    if status == "long":
+        return "incomplete", "more than 10000 evaluations"
     if real["nerr"] != 0:
         if status == "badsteps" and "Bad RK steps" in real["err"]:
             return "ok", "both stop with Bad RK steps"
